@@ -29,10 +29,9 @@ LEVEL_TEXT = ('Theorems (Props/C14.v): for EVERY well-formed UAM-IV file and EVE
               'TEMPERATURE and HEIGHT/PRESSURE (Model/TempHp.v, Proofs/TempHpProofs.v; layered record files over the One3d codec; both Memmap readers hand-modelled incl. the for-loop fall-through, the lazy reshapes and the marker check): C14_temperature_every_prefix and C14_temperature_accepts_iff at full strength for the reader as repaired by 9020b2c '
               '(before it the two-record prefix of every file was accepted with fabricated content: former region 14, now a corpus case), '
               'C14_heightpres_every_prefix and C14_heightpres_accepts_iff at full strength, both reader_local; cuts incl. the two-record prefix evaluated in Coq (TD / HD). '
-              'WIND (Model/Wind.v, Proofs/WindProofs.v; Memmap reader hand-modelled incl. the RecordFile walk of its __init__, with a three-valued result read / raise / never returns): C14_wind_every_prefix_from_first_step (EXACT result for every cut from the first dummy marker on: raises, or presents the '
-              'first k complete steps; trailing partial steps are ignored), C14_wind_first_record_cut_hangs_refuted (every file, every cut from byte 12 to the '
-              'end of the first time record: the reader model diverges) and C14_wind_first_step_cuts_refuted (all cuts of a concrete file classified by '
-              'w_hang_cut) = finding wind-prefix-hangs (region 15). Cuts incl. two hanging ones per file evaluated in Coq (WD), 1 s limit.')
+              'WIND (Model/Wind.v, Proofs/WindProofs.v; Memmap reader hand-modelled incl. the RecordFile walk of its __init__, with a three-valued result read / raise / never returns): C14_wind_every_prefix at full strength for the reader as repaired by db74c5b / d3c85b3 (EVERY cut: raises, or presents exactly the '
+              'first len / step_bytes complete steps; trailing partial steps are ignored) and C14_wind_never_hangs (the model diverges only on a '
+              'corrupt size word <= -8 in the second record). Cuts incl. two inside the first step per file evaluated in Coq (WD).')
 LEVEL_NOTE = 'Trusted: Coq kernel+vm_compute, py2coq, harness. Met formats other than lateral_boundary: every-prefix sweep judged by the Python oracle only.'
 TECHNIQUE = 'Coq proof (prefix theorem for the reader model) + exhaustive byte-prefix sweep per generated file'
 
@@ -185,8 +184,8 @@ def gen(rng, n, tier):  # noqa: F811
                 out.append(dict(kind='layered-cut', content=c, cut=x))
         if c['fmt'] == 'wind':
             # wind: cuts evaluated in Coq (Model/Wind.v): the end of every step's data (the dummy record missing), whole
-            # steps, just past a step's data; two cuts inside the first step where the reader never returns (region 15,
-            # 1 s limit each) and a few cuts after the first step
+            # steps, just past a step's data; two cuts inside the first step (the reader never returned there before db74c5b)
+            # and a few cuts after the first step
             hdr = 20 if c.get('lstagger') is not None else 16
             dat = 4 * c['nx'] * c['ny'] + 8
             body = hdr + 2 * c['nz'] * dat
@@ -267,11 +266,7 @@ def py_check(case, obs):  # noqa: F811
             sw['bad'][0][0], sw['n'], sw['bad'][0][2], len(sw['bad'])))
     if sw['timeouts']:
         why.append('reader did not terminate on %d prefixes (0.5 s limit each; sweep stopped after 3)' % sw['timeouts'])
-    region = 0
-    if c['fmt'] == 'wind':
-        # known: the reader never returns on some prefixes (C14-wind-prefix-hangs); a prefix that OPENS with
-        # wrong content is not part of that finding
-        region = 15 if (sw['timeouts'] and not sw['bad']) else 0
+    region = 0   # (region 14, temperature two-record prefix, retired by 9020b2c; region 15, wind prefix hangs, by db74c5b)
     return dict(s_ok=not why, region=region, why='; '.join(why), timeouts=sw['timeouts'])
 
 
